@@ -312,6 +312,21 @@ PROPS["C20"] = dict(
                          "hook_points_crossed": (300000, 30000000)}),
 )
 
+PROPS["C17"] = dict(
+    level="exploration",
+    technique="end-to-end monitor: RemoteClient reconstruction (sequential and parallel writers, cache off / cold / warm / tiny) against an in-process HTTP range server serving xorbs the harness serialized; output compared with the known concatenation",
+    rule=("case = 1..6 xorbs of unique random chunks x plan of 1..60 terms (repeated xorbs, fetch ranges equal to or wider than terms, several fetch ranges per xorb behind distinct urls or one url per xorb, shuffled) "
+          "x ~8 byte ranges (whole, single byte, random, starting/ending at and next to term boundaries) x {seq, par} writer x cache {off, large, small with evictions} x {cold, warm}; seeded per-request delays permute "
+          "completion order; evaluation = one plan (all its runs); non-trivial = >=2 terms; distinct = (terms / fetch-range buckets, xorbs, url class, cache mode, repeated, wider)"),
+    assumptions=["plain HTTP on loopback; real CAS server quirks and TLS are not covered", "the reconstruction API answer for a byte range (covering terms + offset into the first) is computed by the harness"],
+    jobs=[
+        Job("recon", engine="recon", workers=(16, 16), cases=(22, 2500), time_s=(45, 800), **FULL),
+    ],
+    gates=dict(evaluations=(300, 30000), distinct=(120, 1500),
+               counters={"reconstructions_compared": (5000, 500000), "plans_with_one_url_per_xorb": (30, 3000), "plans_with_repeated_xorbs": (150, 15000), "plans_with_fetch_ranges_wider_than_terms": (150, 15000),
+                         "cache_small": (60, 6000), "cache_large": (60, 6000), "cache_off": (60, 6000), "warm_runs_served_without_network": (1000, 100000), "http_requests_served": (8000, 800000)}),
+)
+
 LEVEL_TEXT = {
     "C01": "Held on the explored histories: after every successful session each file was downloaded by a fresh downloader, whole and in ranges, and compared byte for byte with what was fed. Sampling over contents, partitions, limits and schedules; hostile generators (limits +-1, interleaved dedup, cross-session and cross-file references, global dedup).",
     "C02": "Held on the explored sessions: every stored xorb decoded under an independent parser with name == recomputed hash; every file record resolved to existing xorbs, in-range chunks and exact byte sums; file hash, per-segment verification hashes and SHA-256 equalled independent recomputation from the original bytes.",
@@ -320,6 +335,7 @@ LEVEL_TEXT = {
     "C12": "Held on the explored histories, damage cases and schedules: every reported hit equalled the truth slice (data, offsets, range); damaged / planted / junk entries became misses or errors, never wrong data or a panic, with two recorded exceptions (files renamed to another well-formed name or moved to another key, see known findings).",
     "C13": "Held at every observed quiescent point: counters, tracked entries and directory contents agreed, and the capacity bound held after every put, including hundreds of steered schedules of simultaneous identical puts.",
     "C20": "Held on the explored histories: every recorded history satisfied the one-task-per-flight / every-caller-gets-that-outcome / new-flight-after-return rules, and no waiter was left pending under the bounded-progress probe. Schedules are sampled (5 runtime shapes, perturbation at hook points), not enumerated.",
+    "C17": "Held on the explored plans: every reconstruction (both writers, all cache modes, cold and warm, ~8 byte ranges per plan) wrote exactly the expected slice and reported its length, with request completion order permuted by seeded server delays.",
     "C14": "Held on the explored files and sessions: sizes and metrics conserved (new + deduped = total, withheld <= new, session = sum of files, upload byte counts = what the store calls carried), including runs where fragmentation prevention engaged.",
     "C15": "Held on the explored sessions: every xorb handed to the store respected the configured chunk/byte limits and wire-format widths with strictly increasing boundaries; no shard carried an unresolved xorb reference.",
     "C16": "Fault enumeration: every store call of each enumerated session was failed in turn; in every injected run some session call returned an error, and no shard was ever handed over before/without its xorbs. Exhaustive over single faults per session (bounded), sampled over multi-fault sets and schedules.",
